@@ -47,6 +47,8 @@ def handler_methods(cls):
 
 
 def check(prog, run):
+    from . import c06 as _c06p
+    _c06p.check_all_pairs_within(prog, run, "P1")   # = C06.P1
     from . import c06 as _c06v
     _c06v.check_allowed_position_table(prog, run, "V1")   # = C06.V1: a usage validation lets through wrongly reaches coercion with a null
     from . import c06 as _c06
